@@ -173,6 +173,26 @@ func main() {
 			R.Fail("reference-table-selftest", "misc", map[string]any{"i": c[0], "b": c[1]}, nil)
 		}
 	}
+	if cfg == "checkptr" {
+		// a build with pointer instrumentation (-race implies checkptr): the one place where the library uses unsafe -
+		// the cast from a 255-entry sub-table to its 15-entry prefix in the constant-time path - and the assembly
+		// lookups must obey the unsafe.Pointer rules; a reduced workload, every path, every byte position
+		mc.Par(32*16, func(n int) {
+			i, b := n/16, (n%16)*17
+			s := new(big.Int).Lsh(big.NewInt(int64(b)), uint(8*i))
+			for p := range paths {
+				R.T(1)
+				if m := mc.Safe(func() string { return runBase(s, p, refTab[i][b]) }); m != "" {
+					R.Mismatch(fmt.Sprintf("base/single byte/%s/%s", paths[p], cfg), "base", m, mc.D{"s": mc.HexBig(s), "path": p, "path_name": paths[p], "position": i, "byte": b})
+				}
+			}
+			R.State(mc.HS("byte", fmt.Sprint(n)))
+			R.NT(mc.HS(cfg, "byte", fmt.Sprint(n)))
+		})
+		R.Class("checkptr/single-byte scalars (32 positions x 16 values) x 4 paths under pointer instrumentation", 32*16)
+		R.Finish()
+		return
+	}
 	th := R.Thorough()
 
 	// (1) all table entries
